@@ -1082,6 +1082,12 @@ class XRandSpec(PureSpec):
     quick_per_fn = 150
     trace_hook = False          # set by c19.py when /repo/xmath/xrand/xrand_verif_export.go exists
 
+    def always(self):
+        # ranges that end at the largest int with reservoirs of a few thousand: the running index of Algorithm L gets close
+        # to 2^63 there (the skips grow like n/k) and must not wrap around
+        return [["xrand.Sample", n, k, sd] for n, k in ((MAXINT, 1024), (MAXINT, 4096), (MAXINT - 1, 2048), (2 ** 62, 4096), (2 ** 63 - 2 ** 40, 3000))
+                for sd in (0, 1)]
+
     def universes(self, rng, tier):
         u = {}
         seeds = lambda: rng.randint(0, 10 ** 6)
